@@ -183,6 +183,10 @@ func makePlan(rng *rand.Rand, run int) plan {
 		}
 		p.DlAt = rng.Intn(len(p.Chunks[ini]))
 		p.DlMillis = 1 + rng.Intn(4)
+		if rng.Intn(4) == 0 {
+			// a deadline that is not in the future (now, or already past) unblocks at once
+			p.DlMillis = []int{0, -1, -50}[rng.Intn(3)]
+		}
 		p.DlByOther = rng.Intn(2) == 0
 		if p.Mode == "wdeadline" {
 			// must not fit into the buffer even after one read that was already in flight
@@ -214,6 +218,9 @@ type runState struct {
 
 	armed [2][2]atomic.Bool // [end][0 read,1 write]: a non-zero deadline was set at some point
 	dlSet [2][2]atomic.Bool // [end][0 read,1 write]: a deadline is set right now (a timer may still fire)
+	// dlPast: the deadline that is set was not in the future when it was set (now or earlier): by the
+	// net.Conn contract it takes effect at once, so no timer is left that could wake a parked call later
+	dlPast [2][2]atomic.Bool
 	acked [2]atomic.Int64   // bytes of acknowledged writes of end e
 	got   [2]atomic.Int64   // bytes read so far from end e's writes
 
@@ -304,6 +311,7 @@ func (s *runState) writer(end int, seed int64, wg *sync.WaitGroup) {
 				c := l.begin(end, "setwd", p.DlMillis, nil)
 				s.armed[end][1].Store(true)
 				s.dlSet[end][1].Store(true)
+				s.dlPast[end][1].Store(p.DlMillis <= 0)
 				err := conn.SetWriteDeadline(time.Now().Add(time.Duration(p.DlMillis) * time.Millisecond))
 				l.end(c, 0, err)
 			}
@@ -324,6 +332,7 @@ func (s *runState) writer(end int, seed int64, wg *sync.WaitGroup) {
 				cc := l.begin(end, "setwd", 0, nil)
 				e2 := conn.SetWriteDeadline(time.Time{})
 				s.dlSet[end][1].Store(false)
+				s.dlPast[end][1].Store(false)
 				l.end(cc, 0, e2)
 			}
 		}
@@ -373,6 +382,7 @@ func (s *runState) reader(end int, seed int64, wg *sync.WaitGroup) {
 			c := l.begin(end, "setrd", p.DlMillis, nil)
 			s.armed[end][0].Store(true)
 			s.dlSet[end][0].Store(true)
+			s.dlPast[end][0].Store(p.DlMillis <= 0)
 			err := conn.SetReadDeadline(time.Now().Add(time.Duration(p.DlMillis) * time.Millisecond))
 			l.end(c, 0, err)
 		}
@@ -405,11 +415,13 @@ func (s *runState) reader(end int, seed int64, wg *sync.WaitGroup) {
 				cc := l.begin(end, "setrd", 0, nil)
 				e2 := conn.SetReadDeadline(time.Time{})
 				s.dlSet[end][0].Store(false)
+				s.dlPast[end][0].Store(false)
 				l.end(cc, 0, e2)
 				if dlDir && !isClosed(s.released) {
 					// arm again: the starved read is still to come
 					c := l.begin(end, "setrd", p.DlMillis, nil)
 					s.dlSet[end][0].Store(true)
+					s.dlPast[end][0].Store(p.DlMillis <= 0)
 					err := conn.SetReadDeadline(time.Now().Add(time.Duration(p.DlMillis) * time.Millisecond))
 					l.end(c, 0, err)
 				}
@@ -449,6 +461,7 @@ func (s *runState) armer(seed int64, wg *sync.WaitGroup) {
 		c := l.begin(end, "setwd", p.DlMillis, nil)
 		s.armed[end][1].Store(true)
 		s.dlSet[end][1].Store(true)
+		s.dlPast[end][1].Store(p.DlMillis <= 0)
 		err := s.conns[end].SetWriteDeadline(time.Now().Add(d))
 		l.end(c, 0, err)
 	} else {
@@ -456,6 +469,7 @@ func (s *runState) armer(seed int64, wg *sync.WaitGroup) {
 		c := l.begin(end, "setrd", p.DlMillis, nil)
 		s.armed[end][0].Store(true)
 		s.dlSet[end][0].Store(true)
+		s.dlPast[end][0].Store(p.DlMillis <= 0)
 		err := s.conns[end].SetReadDeadline(time.Now().Add(d))
 		l.end(c, 0, err)
 	}
@@ -548,10 +562,14 @@ func (s *runState) provenDeadlock() (proven bool, parked []string, detail string
 			if strings.HasSuffix(name, "B") {
 				end = 1
 			}
-			if s.dlSet[end][dir].Load() {
+			if s.dlSet[end][dir].Load() && !s.dlPast[end][dir].Load() {
 				return false, nil, fmt.Sprintf("%s is parked in %s but a deadline is set on that end", name, op)
 			}
-			parked = append(parked, fmt.Sprintf("%s parked in bufconn %s (sync.Cond.Wait)", name, op))
+			if s.dlSet[end][dir].Load() {
+				parked = append(parked, fmt.Sprintf("%s parked in bufconn %s (sync.Cond.Wait) although a deadline that had already passed when it was set is on that end", name, op))
+			} else {
+				parked = append(parked, fmt.Sprintf("%s parked in bufconn %s (sync.Cond.Wait)", name, op))
+			}
 		case !inBuf && (g.state == "chan receive" || g.state == "select" || g.state == "sync.WaitGroup.Wait" || g.state == "semacquire"):
 			lines = append(lines, fmt.Sprintf("%s blocked on a harness channel (%s)", name, g.state))
 		default:
